@@ -281,6 +281,9 @@ type undoRec struct {
 }
 
 func (in *Interp) setSlot(o *Obj, idx int, v Value) {
+	if in.writeMark > 0 && o.ID < in.writeMark && o.ID >= 0 {
+		in.sharedWrites++
+	}
 	if o.Frozen && in.undoOn {
 		in.undo = append(in.undo, undoRec{obj: o, idx: idx, old: o.Slots[idx]})
 	}
